@@ -90,7 +90,7 @@ CLAIMS.update({
     note="Trusted: Lean kernel (axioms propext/Classical.choice/Quot.sound); the protocol model's correspondence to engines/sync.py and async_.py rests on the schedulers' line-to-step mapping (falls back to Spec + outcome-set comparison if the anchors move); bytecode-level preemption inside one source line, GIL hand-off timing and real event-loop timing are not explored; Lock.acquire(blocking=False)/release and deque.append/popleft are assumed atomic."),
   "C12": dict(
     technique="Lean 4 proof (resolution of names against an ordered provider list into keyed executors: idempotence, no duplicate keys, completeness) + model/implementation correspondence with late and repeated attachment + isolation test with a second instance",
-    text="Theorems about the registry model SMV.Reg (specs + ordered providers -> executors by `add`/priority `insort`; it computes every engine scenario's machine inside the driver, so every engine-level correspondence run validates it): C12_reg_keys_nodup (each resolved callback registered exactly once, however often its listener is attached), C12_reg_sorted (call order = priority order), C12_reg_sound / C12_reg_isolated (every entry stems from a declared spec of that group and an attached provider: a listener of another instance is never called), C12_reg_complete(_callable) (all providers of a name are called), C12_reg_reattach (attaching attached listeners again is the identity). Theorems about the name-level resolution model Prov (names -> executor items keyed by (name, provider)): C12_attach_idempotent (attaching the same listeners again, any number of times, leaves every executor unchanged), C12_no_duplicate_keys, C12_all_providers_called (every provider offering a name is in the executor), C12_only_offered, C12_parity (resolution uses providers only through id and attributes: machine, model and listeners are treated alike). Phases/argument injection for provider callbacks are C02/C07 on the shared engine. Correspondence: callbacks (conventions, names, guards, validators) distributed over machine/model/constructor listeners/late listeners, the same name on 1-3 providers (guard conjunction), listeners attached at random points and re-attached, async listener methods, and a second instance of the class driven alongside to check that one instance's listeners are never invoked by another. Known findings D12 (late async listener on a sync machine) and D13 (guard re-evaluated per re-attachment) are probed and reported; multi-provider `unless` names and coroutine guards inside a provider conjunction are not generated (see DESIGN).",
+    text="Theorems about the registry model SMV.Reg (specs + ordered providers -> executors by `add`/priority `insort`; it computes every engine scenario's machine inside the driver, so every engine-level correspondence run validates it): C12_reg_keys_nodup (each resolved callback registered exactly once, however often its listener is attached), C12_reg_sorted (call order = priority order), C12_reg_sound / C12_reg_isolated (every entry stems from a declared spec of that group and an attached provider: a listener of another instance is never called), C12_reg_complete(_callable) (all providers of a name are called), C12_reg_reattach (attaching attached listeners again is the identity). Theorems about the name-level resolution model Prov (names -> executor items keyed by (name, provider)): C12_attach_idempotent (attaching the same listeners again, any number of times, leaves every executor unchanged), C12_no_duplicate_keys, C12_all_providers_called (every provider offering a name is in the executor), C12_only_offered, C12_parity (resolution uses providers only through id and attributes: machine, model and listeners are treated alike). Phases/argument injection for provider callbacks are C02/C07 on the shared engine. Correspondence: callbacks (conventions, names, guards, validators) distributed over machine/model/constructor listeners/late listeners, the same name on 1-3 providers (guard conjunction), listeners attached at random points and re-attached, async listener methods, and a second instance of the class driven alongside to check that one instance's listeners are never invoked by another. Known findings D12 (late async listener on a sync machine) and D13 (guard re-evaluated per re-attachment) are probed and reported; multi-provider `unless` names and coroutine guards inside a provider conjunction are not generated (see DESIGN). Guards given as boolean expressions with late listeners: GExpr.constructPasses / C12_late_guards_conj (enabled iff the constructor pass's guards and every late pass's guards hold), checked three-way (implementation, Lean, CPython eval pass by pass).",
     design="7 C12"),
 })
 CLAIMS.update({
